@@ -29,7 +29,7 @@ WORKERS = [
 ]
 PKG_OF_BIN = {b: p for p, b, _ in WORKERS}
 
-FORMATS = ["mpq", "ptch", "m2", "skin", "anim", "adt", "wmo-root", "wmo-group", "blp", "dbc", "wdt", "wdl"]
+FORMATS = ["mpq", "mpq-raw", "mpq-special", "ptch", "m2", "skin", "anim", "adt", "wmo-root", "wmo-group", "blp", "dbc", "wdt", "wdl"]
 
 RULE = ("seeds = valid files of every format written by the library's own writers/builders (plus the BLP fixtures and a few hand-assembled chunk streams / "
         "DBC tables), listed per format under extras.seeds|<format>. Mutations of each seed: (1) every prefix (files <= 4 KiB) or the first 512 prefixes + 256 "
@@ -112,7 +112,7 @@ def _reference_mpq_seeds(scratch, seed):
 # re-run once under the fuzz binary: an AddressSanitizer memory-error report is a violation of its own, anything else
 # (stack depth or time that only the ~3x slower instrumented build runs out of) is counted and not judged.
 
-FUZZ_FORMATS = ["mpq", "mpq-special", "ptch", "m2", "skin", "anim", "adt", "wmo-root", "wmo-group", "blp", "dbc", "wdt", "wdl"]
+FUZZ_FORMATS = ["mpq", "mpq-raw", "mpq-special", "ptch", "m2", "skin", "anim", "adt", "wmo-root", "wmo-group", "blp", "dbc", "wdt", "wdl"]
 FUZZ_BIN_OF = {"mpq": "c05_mpq", "mpq-special": "c05_mpq", "ptch": "c05_mpq"}
 FUZZ_TARGET_DIR = sup.TARGET_BASE + "-fuzz"
 
